@@ -402,6 +402,7 @@ type Caps struct {
 	ChoiceDefaults bool  // choices may name a default case
 	Embeds         bool  // struct-backed nodeutil.Node: some fields are promoted from an embedded struct
 	ConvSlices     bool  // some int32 leaf-lists are []int64 fields
+	KeyTypes       []string // further key leaf types (besides string and, with IntKeys, int32)
 	NoPlainLeaves  bool  // leaves only as list keys (a store that cannot tell a zero scalar from an unset one and does not ignore zeros)
 	Fixture        *Node // the store holds fixed Go types: schemas are seeded sub-schemas of this one
 }
@@ -437,6 +438,13 @@ func (g *gen) leaf(key bool, keyInt bool) *Node {
 			l.Type = "int32"
 		} else {
 			l.Type = "string"
+		}
+		if len(g.caps.KeyTypes) > 0 && g.r.Chance(1, 4) {
+			// a less common key type the store is known to take
+			l.Type = g.caps.KeyTypes[g.r.Intn(len(g.caps.KeyTypes))]
+			if l.Type == "enum" {
+				l.Enums = enumSets[g.r.Intn(len(enumSets))]
+			}
 		}
 		return l
 	}
@@ -500,7 +508,8 @@ func (g *gen) list(depth int) *Node {
 	if g.r.Chance(1, 3) {
 		l.UserOrder = true
 	}
-	if g.caps.MapLists && nk == 1 && g.r.Chance(1, 2) {
+	plainKey := l.Children[0].Type == "string" || l.Children[0].Type == "int32"
+	if g.caps.MapLists && nk == 1 && plainKey && g.r.Chance(1, 2) {
 		l.MapList = true
 	} else if g.caps.ValueLists && g.r.Chance(1, 2) {
 		l.ValueList = true
